@@ -199,12 +199,19 @@ HEADER_SETS = [
 ]
 
 
+DATE_STYLES = ['01/05/2025', 'Jan 05, 2025', '2025-01-05', '05.01.2025', 'January 5, 2025']
+
+
 class _HdrReader:
-    def __init__(self, hdr):
+    def __init__(self, hdr, date_style=0):
         self.hdr = hdr
+        self.date_style = date_style
 
     def reader(self, f, *a, **k):
-        return iter([list(self.hdr)])
+        rows = [list(self.hdr)]
+        for n in range(3):          # data rows: a date-looking cell in every column whose header mentions a date, text/amount elsewhere
+            rows.append([DATE_STYLES[self.date_style] if 'date' in h.lower() else ('%d.50' % (n + 1) if any(w in h.lower() for w in ('amount', 'debit', 'charge', 'payment')) else 'TEXT %d' % n) for h in self.hdr])
+        return iter(rows)
 
     def __getattr__(self, n):
         import csv
@@ -222,7 +229,7 @@ class _Open:
         return False
 
 
-def roundtrip(hi, perm):
+def roundtrip(hi, perm, date_style=0):
     base = [HEADER_SETS[hi][i] for i in perm]
     suggest = extract_suggester()
 
@@ -238,7 +245,7 @@ def roundtrip(hi, perm):
         hdr[-1] = p1 + hdr[-1] + s1
         saved = (parsers.__dict__.get('open'), parsers.csv)
         parsers.open = _Open
-        parsers.csv = _HdrReader(hdr)
+        parsers.csv = _HdrReader(hdr, date_style)
         try:
             try:
                 spec = parsers.auto_detect_csv_format('x.csv')
@@ -283,7 +290,7 @@ def obligations(tier, seed):
         rng.shuffle(allp)
         perms += allp[:(1 if q else 5)]
         for pi, perm in enumerate(dict.fromkeys(perms)):
-            obs.append(Obligation(id=f'roundtrip-{hi}-{pi}', factory='roundtrip', params={'hi': hi, 'perm': list(perm)}, timeout=120 if q else 600,
+            obs.append(Obligation(id=f'roundtrip-{hi}-{pi}', factory='roundtrip', params={'hi': hi, 'perm': list(perm), 'date_style': (hi + pi) % len(DATE_STYLES)}, timeout=120 if q else 600,
                                   group='inspect suggestion round-trips',
-                                  bounds=f'header row {[hs[i] for i in perm]} with symbolic 0-1 char prefix/suffix on the first and last header'))
+                                  bounds=f'header row {[hs[i] for i in perm]} with symbolic 0-1 char prefix/suffix on the first and last header; 3 data rows, date style ' + DATE_STYLES[(hi + pi) % len(DATE_STYLES)]))
     return obs
